@@ -494,6 +494,7 @@ def normalise(mod: ast.Module, newtypes: set[str], fields: dict) -> ast.Module:
     for n in ast.walk(mod):
         if isinstance(n, (ast.FunctionDef, ast.AsyncFunctionDef)):
             _propagate_paths(n)
+            _IGNORE_CALLS[0] = False
     for n in ast.walk(mod):
         if isinstance(n, (ast.FunctionDef, ast.AsyncFunctionDef)):
             _inline_temporaries(n)
@@ -545,11 +546,15 @@ def _reads(e: ast.expr) -> set[str]:
     return out
 
 
+_IGNORE_CALLS = [False]
+
+
 def _writes_or_calls(st: ast.AST, reads: set[str]) -> bool:
-    """May executing `st` change anything in `reads`?  Any call (other than a few pure builtins) may."""
+    """May executing `st` change anything in `reads`?  Any call (other than a few pure builtins) may — unless what is read is an
+    attribute of an immutable object (a regex match), which no call can change."""
     roots = {r.split(".")[0] for r in reads}
     for n in ast.walk(st):
-        if isinstance(n, ast.Call):
+        if isinstance(n, ast.Call) and not _IGNORE_CALLS[0]:
             f = n.func
             if not (isinstance(f, ast.Name) and f.id in PURE_CALLS):
                 return True
@@ -578,6 +583,7 @@ def _propagate_paths(fn) -> None:
         changed = False
         for seq in list(_blocks(fn)):
             for i, st in enumerate(seq):
+                _IGNORE_CALLS[0] = False
                 if not (isinstance(st, ast.Assign) and len(st.targets) == 1 and isinstance(st.targets[0], ast.Name)):
                     continue
                 name = st.targets[0].id
@@ -586,6 +592,20 @@ def _propagate_paths(fn) -> None:
                 reads = _reads(st.value)
                 if name in reads:
                     continue
+                # `kind = m.lastgroup` where `m` is bound once to the result of a regex match: match objects are immutable
+                root = st.value
+                while isinstance(root, (ast.Attribute, ast.Subscript)):
+                    root = root.value
+                _IGNORE_CALLS[0] = False
+                if isinstance(root, ast.Name) and stores.get(root.id) == 1 and isinstance(st.value, ast.Attribute) and \
+                        isinstance(st.value.value, ast.Name):
+                    defs_ = [a.value for a in _own(fn) if isinstance(a, ast.Assign) and len(a.targets) == 1 and isinstance(a.targets[0], ast.Name)
+                             and a.targets[0].id == root.id]
+                    defs_ += [a.value for a in _own(fn) if isinstance(a, ast.NamedExpr) and a.target.id == root.id]
+                    if len(defs_) == 1 and isinstance(defs_[0], ast.Call) and \
+                            (defs_[0].func.attr if isinstance(defs_[0].func, ast.Attribute) else getattr(defs_[0].func, "id", "")) in \
+                            ("match", "fullmatch", "search"):
+                        _IGNORE_CALLS[0] = True
                 uses_all = [n for n in _own(fn) if isinstance(n, ast.Name) and n.id == name and isinstance(n.ctx, ast.Load)]
                 if not uses_all:
                     continue
